@@ -31,6 +31,36 @@ COMPONENT_MODE_ARGS = {  # positional indices of mode-bearing constructor argume
 }
 
 
+def helper_roles(ci, name: str, mapper="_map_mode", rangecheck="_mode_in_range", _depth=0) -> dict:
+    """What a private self-helper does with its parameters: {'maps': bool, 'validates': set of parameter names
+    (or all) that reach the range check (directly, through a loop over the parameter, or after mapping)}."""
+    h = ci.methods.get(name)
+    if h is None:
+        return {"maps": False, "validates": set(), "params": []}
+    params = h.params()[1:] if h.kind != "static" else h.params()
+    txt = src(h.node)
+    maps = f"self.{mapper}(" in txt and any(isinstance(r, ast.Return) and r.value is not None for r in walk_no_nested(h.node))
+    validated = set()
+    for c in walk_no_nested(h.node):
+        checked_args = []
+        if isinstance(c, ast.Call) and src(c.func) == f"self.{rangecheck}" and c.args:
+            checked_args = [c.args[0]]
+        elif isinstance(c, ast.Call) and isinstance(c.func, ast.Attribute) and src(c.func.value) == "self" and c.func.attr in ci.methods and c.func.attr not in (name, mapper, rangecheck) and _depth < 3:
+            sub = helper_roles(ci, c.func.attr, mapper, rangecheck, _depth + 1)
+            checked_args = [a for pn, a in zip(sub["params"], c.args) if pn in sub["validates"]]
+        for arg0 in checked_args:
+            names = {x.id for x in ast.walk(arg0) if isinstance(x, ast.Name)}
+            # follow local derivations back to parameters (x = self._map_mode(p); for m in modes: ...)
+            for _ in range(4):
+                for n in walk_no_nested(h.node):
+                    if isinstance(n, ast.Assign) and len(n.targets) == 1 and isinstance(n.targets[0], ast.Name) and n.targets[0].id in names:
+                        names |= {x.id for x in ast.walk(n.value) if isinstance(x, ast.Name)}
+                    if isinstance(n, ast.For) and any(isinstance(x, ast.Name) and x.id in names for x in ast.walk(n.target)):
+                        names |= {x.id for x in ast.walk(n.iter) if isinstance(x, ast.Name)}
+            validated |= names & set(params)
+    return {"maps": maps, "validates": validated, "params": params}
+
+
 def jq(a, b):
     if a == b:
         return a
@@ -383,6 +413,12 @@ class ModeFlow:
             if f.attr == "_add_empty_mode" and len(args) >= 2:
                 self.sink_full(args[1], e.args[1], "index of self._add_empty_mode", e)
                 return ("list", UNK)
+            if f.attr in self.ci.methods and f.attr not in (self.mapper, self.rangecheck):
+                roles = helper_roles(self.ci, f.attr, self.mapper, self.rangecheck)
+                if roles["maps"] and args:
+                    self.map_calls += 1
+                    self.sink_user(args[0], e.args[0], f"argument of {f.attr} (maps through {self.mapper})", e)
+                    return FULL
         if isinstance(f, ast.Attribute):
             recv = self.ev(f.value, env)
             if f.attr == "items" and isinstance(recv, tuple) and recv[0] == "dict":
@@ -464,7 +500,7 @@ class ValidatedBeforeWrite(MustWalk):
     def assigned(self, name, st):
         return st - {name}
 
-    def stmt(self, s, st):
+    def _stmt_inner(self, s, st):
         if isinstance(s, ast.For) and isinstance(s.target, ast.Name):
             # `for m in <expr over names>: self._mode_in_range(m)` validates those names
             body_validates = any(isinstance(n, ast.Call) and src(n.func) == f"self.{self.rc}" and n.args and isinstance(n.args[0], ast.Name) and n.args[0].id == s.target.id for b in s.body for n in ast.walk(b))
@@ -485,11 +521,30 @@ class ValidatedBeforeWrite(MustWalk):
             return out
         return super().stmt(s, st)
 
+    def stmt(self, s, st):  # noqa: F811 - extended below
+        out = self._stmt_inner(s, st)
+        # x = self.helper(y): the helper maps and range-checks its argument -> x is validated
+        if out is not None and isinstance(s, ast.Assign) and len(s.targets) == 1 and isinstance(s.targets[0], ast.Name) and isinstance(s.value, ast.Call):
+            c = s.value
+            if isinstance(c.func, ast.Attribute) and src(c.func.value) == "self" and c.func.attr in self.ci.methods and c.func.attr not in (self.rc, self.mapper):
+                roles = helper_roles(self.ci, c.func.attr, self.mapper, self.rc)
+                if roles["maps"] and roles["validates"]:
+                    out = out | {s.targets[0].id}
+        return out
+
     def event(self, role, node, st):
         if role == "call":
             f = src(node.func)
             if f == f"self.{self.rc}" and node.args and isinstance(node.args[0], ast.Name):
                 return st | {node.args[0].id}
+            if isinstance(node.func, ast.Attribute) and src(node.func.value) == "self" and node.func.attr in self.ci.methods and node.func.attr not in (self.rc, self.mapper):
+                roles = helper_roles(self.ci, node.func.attr, self.mapper, self.rc)
+                add = set()
+                for pn, a in zip(roles["params"], node.args):
+                    if pn in roles["validates"]:
+                        add |= {x.id for x in ast.walk(a) if isinstance(x, ast.Name)}
+                if add and not roles["maps"]:
+                    return st | add
             is_spec_append = isinstance(node.func, ast.Attribute) and node.func.attr == "append" and isinstance(node.func.value, ast.Attribute) and isinstance(node.func.value.value, ast.Name) and node.func.value.value.id == "self"
             if is_spec_append and node.args:
                 self.check_names(node.args[0], st, node)
